@@ -598,9 +598,9 @@ func main() {
 	nHist, faultRs, dieEvery, envPer, par := 16, 2, 3, 2, 48
 	switch args.Tier {
 	case "thorough":
-		nHist, faultRs, dieEvery, envPer, par = 300, 4, 1, 4, 64
+		nHist, faultRs, dieEvery, envPer, par = 150, 3, 1, 3, 64
 	case "search":
-		nHist, faultRs, dieEvery, envPer, par = 120, 3, 2, 3, 64
+		nHist, faultRs, dieEvery, envPer, par = 40, 3, 2, 3, 64
 	}
 	w := lib.NewWriter(args, "C07", "c07", "From KB Require Import Model.C07Cases.\n"+tab.Header(), "c07_case", "c07_check", "c07_oracle", 60)
 
@@ -654,7 +654,7 @@ func main() {
 
 	engines := []string{lib.EngMem, lib.EngMem, lib.EngMem, lib.EngMem, lib.EngMem, lib.EngTiKV}
 	if args.Tier != "quick" {
-		engines = []string{lib.EngMem, lib.EngMem, lib.EngMem, lib.EngBadger, lib.EngTiKV}
+		engines = []string{lib.EngMem, lib.EngMem, lib.EngTiKV, lib.EngMem, lib.EngMem, lib.EngMem, lib.EngTiKV, lib.EngMem, lib.EngMem, lib.EngBadger}
 	}
 	for hi, h := range hists {
 		r := rnd.Fork()
